@@ -110,7 +110,7 @@ func stageEventsRevocationDefaultRoot(x *mon.Ctx) {
 		case !p.expect && accepted:
 			x.Violation(class, p.c.Param, "verify.TdxQuote accepted with revocation lists that Intel's CAs did not sign as served, under the default root of trust", "verify", p.c)
 		case !p.expect && ok:
-			x.Violation(class, p.c.Param, fmt.Sprintf("the library reports %q with revocation checking on although a revocation list is not authentic / not the right CA's, under the default root of trust (the run then ended with: %s)", stagePckChain, errs), "none", map[string]any{"case": p.c, "stage_line": stagePckChain, "verdict_error": errs})
+			x.Violation(class, p.c.Param, fmt.Sprintf("the library reports %q with revocation checking on although a revocation list is not authentic / not the right CA's, under the default root of trust (the run then ended with: %s)", stagePckChain, errs), "stage", stageWitness{Case: p.c, Stage: stagePckChain, Err: errs})
 		case !p.expect:
 			refused++
 		}
